@@ -398,10 +398,17 @@ func uuidV1Setters(c *vf.Ctx) {
 	}
 	var cases []v1case
 	for _, bg := range bgs {
-		for _, t := range times {
+		for ti, t := range times {
 			x := bg
 			x.t = t
 			cases = append(cases, x)
+			// the same instant carried in other time zones (a time.Time is an instant, its Location is presentation)
+			if ti%7 == 0 {
+				for _, z := range []*time.Location{time.FixedZone("plus2", 2*3600), time.FixedZone("minus5", -5*3600), time.FixedZone("india", 5*3600+1800)} {
+					x.t = t.In(z)
+					cases = append(cases, x)
+				}
+			}
 		}
 		for clk := 0; clk <= 0x3fff; clk++ {
 			x := bg
@@ -598,10 +605,16 @@ func uuidV2Setters(c *vf.Ctx) {
 	}
 	var cases []v2case
 	for _, bg := range bgs {
-		for _, t := range timeLattice() {
+		for ti, t := range timeLattice() {
 			x := bg
 			x.t = t
 			cases = append(cases, x)
+			if ti%7 == 0 {
+				for _, z := range []*time.Location{time.FixedZone("plus2", 2*3600), time.FixedZone("minus5", -5*3600)} {
+					x.t = t.In(z)
+					cases = append(cases, x)
+				}
+			}
 		}
 		for _, w := range enum.Words(32) {
 			x := bg
@@ -815,7 +828,7 @@ func guidText(l *local, f ref.Fields) {
 				return fmt.Sprintf("GUID%s.ToFormat%s() = %q: google/uuid parses it as %x (err %v), want %x", fstr(f), L, got, gu[:], err, ref.RFCOrder(ref.Encode(f)))
 			})
 		}
-		for _, cs := range []struct{ name, in string }{{"lower-case", text}, {"upper-case", ref.UpperHex(text)}} {
+		for _, cs := range []struct{ name, in string }{{"lower-case", text}, {"upper-case", ref.UpperHex(text)}, {"upper-case-incl-0X-prefix", strings.ToUpper(text)}} {
 			var p *guid.GUID
 			var err error
 			pan, msg, where = vf.Try(func() { p, err = fm.from(cs.in) })
